@@ -2,7 +2,7 @@ import AsherahVerif.Proofs.EnvCohStill
 /-
 Specification calculus for the coherence proofs.
 
-`Spec a F P x G` — run `x` from a world that satisfies `Inv`, the stable precondition `P` and (in
+`CSpec a F P x G` — run `x` from a world that satisfies `Inv`, the stable precondition `P` and (in
 fault-free mode `F`) has an empty fault schedule.  Then
 * the world only `Ext`ends, and
 * either a destroyed secret was touched (`Bust a`: the access-after-close counter exceeds `a`,
@@ -89,31 +89,31 @@ macro "stable_auto" : tactic => `(tactic| repeat (any_goals (first | stable_atom
 def Post {α : Type} (F : Prop) (G : α → World → Prop) (r : Except Err α) (w : World) : Prop :=
   Inv w ∧ (F → w.faults = []) ∧ (∀ v, r = .ok v → G v w) ∧ (F → ∃ v, r = .ok v)
 
-structure Spec {α : Type} (a : Nat) (F : Prop) (P : World → Prop) (x : M α) (G : α → World → Prop) : Prop where
+structure CSpec {α : Type} (a : Nat) (F : Prop) (P : World → Prop) (x : M α) (G : α → World → Prop) : Prop where
   ext : Extends x
   post : ∀ w, (F → a ≤ accessesAfterClose w) → Inv w → (F → w.faults = []) → P w →
     Bust a (x w).2 ∨ Post F G (x w).1 (x w).2
 
-theorem Spec.pure {α : Type} {a : Nat} {F : Prop} {P : World → Prop} {G : α → World → Prop} (v : α)
-    (h : ∀ w, Inv w → P w → G v w) : Spec a F P (pure v : M α) G :=
+theorem CSpec.pure {α : Type} {a : Nat} {F : Prop} {P : World → Prop} {G : α → World → Prop} (v : α)
+    (h : ∀ w, Inv w → P w → G v w) : CSpec a F P (pure v : M α) G :=
   ⟨Extends.pure v, fun w _ hi hf hp => Or.inr ⟨hi, hf, fun v' hv => (by cases hv; exact h w hi hp), fun _ => ⟨v, rfl⟩⟩⟩
 
-theorem Spec.throw {α : Type} {a : Nat} {F : Prop} {P : World → Prop} {G : α → World → Prop} (e : Err)
-    (h : ∀ w, Inv w → P w → ¬ F) : Spec a F P (throw e : M α) G :=
+theorem CSpec.throw {α : Type} {a : Nat} {F : Prop} {P : World → Prop} {G : α → World → Prop} (e : Err)
+    (h : ∀ w, Inv w → P w → ¬ F) : CSpec a F P (throw e : M α) G :=
   ⟨Extends.throw e, fun w _ hi hf hp => Or.inr ⟨hi, hf, fun v' hv => (by cases hv), fun hF => absurd hF (h w hi hp)⟩⟩
 
-theorem Spec.weaken {α : Type} {a : Nat} {F : Prop} {P P' : World → Prop} {x : M α} {G G' : α → World → Prop}
-    (h : Spec a F P x G) (hp : ∀ w, Inv w → P' w → P w) (hg : ∀ v w, Inv w → G v w → G' v w) : Spec a F P' x G' :=
+theorem CSpec.weaken {α : Type} {a : Nat} {F : Prop} {P P' : World → Prop} {x : M α} {G G' : α → World → Prop}
+    (h : CSpec a F P x G) (hp : ∀ w, Inv w → P' w → P w) (hg : ∀ v w, Inv w → G v w → G' v w) : CSpec a F P' x G' :=
   ⟨h.ext, fun w ha hi hf hp' => (h.post w ha hi hf (hp w hi hp')).imp id
     fun ⟨i, f, g, s⟩ => ⟨i, f, fun v hv => hg v _ i (g v hv), s⟩⟩
 
-theorem Spec.pre {α : Type} {a : Nat} {F : Prop} {P P' : World → Prop} {x : M α} {G : α → World → Prop}
-    (hp : ∀ w, Inv w → P' w → P w) (h : Spec a F P x G) : Spec a F P' x G :=
+theorem CSpec.pre {α : Type} {a : Nat} {F : Prop} {P P' : World → Prop} {x : M α} {G : α → World → Prop}
+    (hp : ∀ w, Inv w → P' w → P w) (h : CSpec a F P x G) : CSpec a F P' x G :=
   h.weaken hp fun _ _ _ h => h
 
-theorem Spec.bind {α β : Type} {a : Nat} {F : Prop} {P : World → Prop} {x : M α} {f : α → M β}
+theorem CSpec.bind {α β : Type} {a : Nat} {F : Prop} {P : World → Prop} {x : M α} {f : α → M β}
     {G1 : α → World → Prop} {G2 : β → World → Prop}
-    (hx : Spec a F P x G1) (hf : ∀ v, Spec a F (G1 v) (f v) G2) : Spec a F P (x >>= f) G2 := by
+    (hx : CSpec a F P x G1) (hf : ∀ v, CSpec a F (G1 v) (f v) G2) : CSpec a F P (x >>= f) G2 := by
   refine ⟨Extends.bind hx.ext fun v => (hf v).ext, ?_⟩
   intro w ha hi hnf hp
   have h1 := hx.post w ha hi hnf hp
@@ -133,11 +133,11 @@ theorem Spec.bind {α β : Type} {a : Nat} {F : Prop} {P : World → Prop} {x : 
       · exact (hf v).post w1 (fun hF => Nat.le_trans (ha hF) (aac_mono e1)) i f' (g v rfl)
 
 /-- sequencing that keeps the (stable) precondition for the continuation. -/
-theorem Spec.bind_frame {α β : Type} {a : Nat} {F : Prop} {P P' : World → Prop} {x : M α} {f : α → M β}
+theorem CSpec.bind_frame {α β : Type} {a : Nat} {F : Prop} {P P' : World → Prop} {x : M α} {f : α → M β}
     {G1 : α → World → Prop} {G2 : β → World → Prop}
-    (hx : Spec a F P' x G1) (hpre : ∀ w, Inv w → P w → P' w) (hS : Stable P)
-    (hf : ∀ v, Spec a F (fun w => P w ∧ G1 v w) (f v) G2) : Spec a F P (x >>= f) G2 := by
-  have hx' : Spec a F P x (fun v w => P w ∧ G1 v w) := by
+    (hx : CSpec a F P' x G1) (hpre : ∀ w, Inv w → P w → P' w) (hS : Stable P)
+    (hf : ∀ v, CSpec a F (fun w => P w ∧ G1 v w) (f v) G2) : CSpec a F P (x >>= f) G2 := by
+  have hx' : CSpec a F P x (fun v w => P w ∧ G1 v w) := by
     refine ⟨hx.ext, fun w ha hi hnf hp => ?_⟩
     have e1 := hx.ext w
     exact (hx.post w ha hi hnf (hpre w hi hp)).imp id
@@ -145,19 +145,19 @@ theorem Spec.bind_frame {α β : Type} {a : Nat} {F : Prop} {P P' : World → Pr
   exact hx'.bind hf
 
 /-- `tryM` turns the outcome into a value. -/
-theorem Spec.tryM {α : Type} {a : Nat} {F : Prop} {P : World → Prop} {x : M α} {G : α → World → Prop}
-    (hx : Spec a F P x G) :
-    Spec a F P (Env.tryM x) (fun r w => (∀ v, r = .ok v → G v w) ∧ (F → ∃ v, r = .ok v)) := by
+theorem CSpec.tryM {α : Type} {a : Nat} {F : Prop} {P : World → Prop} {x : M α} {G : α → World → Prop}
+    (hx : CSpec a F P x G) :
+    CSpec a F P (Env.tryM x) (fun r w => (∀ v, r = .ok v → G v w) ∧ (F → ∃ v, r = .ok v)) := by
   refine ⟨Extends.tryM hx.ext, fun w ha hi hnf hp => ?_⟩
   simp only [tryM_run]
   exact (hx.post w ha hi hnf hp).imp id
     fun ⟨i, f', g, s⟩ => ⟨i, f', fun r hr => (by cases hr; exact ⟨g, s⟩), fun _ => ⟨_, rfl⟩⟩
 
 /-- Go `defer`: the deferred call must keep the invariant; the (stable) result facts survive it. -/
-theorem Spec.finallyDo {α : Type} {a : Nat} {F : Prop} {P : World → Prop} {x : M α} {fin : M Unit}
+theorem CSpec.finallyDo {α : Type} {a : Nat} {F : Prop} {P : World → Prop} {x : M α} {fin : M Unit}
     {G : α → World → Prop}
-    (hx : Spec a F P x G) (hS : ∀ v, Stable (G v))
-    (hfin : Spec a F (fun _ => True) fin (fun _ _ => True)) : Spec a F P (finallyDo x fin) G := by
+    (hx : CSpec a F P x G) (hS : ∀ v, Stable (G v))
+    (hfin : CSpec a F (fun _ => True) fin (fun _ _ => True)) : CSpec a F P (finallyDo x fin) G := by
   refine ⟨Extends.finallyDo hx.ext hfin.ext, fun w ha hi hnf hp => ?_⟩
   simp only [finallyDo_run]
   have e1 := hx.ext w
@@ -169,52 +169,52 @@ theorem Spec.finallyDo {α : Type} {a : Nat} {F : Prop} {P : World → Prop} {x 
     · exact Or.inr ⟨i2, f2, fun v hv => (hS v).st _ _ e2 (g v hv), s⟩
 
 /-- a computation that touches neither store nor caches: only its result needs an argument. -/
-theorem Spec.of_still {α : Type} {a : Nat} {F : Prop} {P : World → Prop} {x : M α} {G : α → World → Prop}
+theorem CSpec.of_still {α : Type} {a : Nat} {F : Prop} {P : World → Prop} {x : M α} {G : α → World → Prop}
     (he : Extends x) (hs : Stills x)
     (hr : ∀ w, (F → a ≤ accessesAfterClose w) → Inv w → (F → w.faults = []) → P w →
       Bust a (x w).2 ∨ ((∀ v, (x w).1 = .ok v → G v (x w).2) ∧ (F → ∃ v, (x w).1 = .ok v))) :
-    Spec a F P x G :=
+    CSpec a F P x G :=
   ⟨he, fun w ha hi hnf hp => (hr w ha hi hnf hp).imp id fun ⟨g, s⟩ =>
     ⟨hi.still (he w) (hs.st w), fun hF => (hs.st w).nf (hnf hF), g, s⟩⟩
 
 /-- a still computation that always succeeds, with nothing to say about its result. -/
-theorem Spec.of_still_ok {α : Type} {a : Nat} {F : Prop} {P : World → Prop} {x : M α}
+theorem CSpec.of_still_ok {α : Type} {a : Nat} {F : Prop} {P : World → Prop} {x : M α}
     (he : Extends x) (hs : Stills x) (hok : ∀ w, ∃ v, (x w).1 = .ok v) :
-    Spec a F P x (fun _ _ => True) :=
-  Spec.of_still he hs fun w _ _ _ _ => Or.inr ⟨fun _ _ => trivial, fun _ => hok w⟩
+    CSpec a F P x (fun _ _ => True) :=
+  CSpec.of_still he hs fun w _ _ _ _ => Or.inr ⟨fun _ _ => trivial, fun _ => hok w⟩
 
-theorem Spec.get {a : Nat} {F : Prop} {P : World → Prop} :
-    Spec a F P get (fun v w => v.now = w.now ∧ v.facs = w.facs ∧ v.sessions = w.sessions) :=
-  Spec.of_still Extends.get Stills.get fun w _ _ _ _ => Or.inr ⟨fun v hv => (by cases hv; exact ⟨rfl, rfl, rfl⟩), fun _ => ⟨w, rfl⟩⟩
+theorem CSpec.get {a : Nat} {F : Prop} {P : World → Prop} :
+    CSpec a F P get (fun v w => v.now = w.now ∧ v.facs = w.facs ∧ v.sessions = w.sessions) :=
+  CSpec.of_still Extends.get Stills.get fun w _ _ _ _ => Or.inr ⟨fun v hv => (by cases hv; exact ⟨rfl, rfl, rfl⟩), fun _ => ⟨w, rfl⟩⟩
 
 /-- use a lemma about `x` as the last step, keeping the stable precondition for the result. -/
-theorem Spec.frame {α : Type} {a : Nat} {F : Prop} {P P' : World → Prop} {x : M α} {G1 G : α → World → Prop}
-    (hx : Spec a F P' x G1) (hpre : ∀ w, Inv w → P w → P' w) (hS : Stable P)
-    (hg : ∀ v w, Inv w → P w → G1 v w → G v w) : Spec a F P x G := by
+theorem CSpec.frame {α : Type} {a : Nat} {F : Prop} {P P' : World → Prop} {x : M α} {G1 G : α → World → Prop}
+    (hx : CSpec a F P' x G1) (hpre : ∀ w, Inv w → P w → P' w) (hS : Stable P)
+    (hg : ∀ v w, Inv w → P w → G1 v w → G v w) : CSpec a F P x G := by
   refine ⟨hx.ext, fun w ha hi hnf hp => ?_⟩
   have e1 := hx.ext w
   exact (hx.post w ha hi hnf (hpre w hi hp)).imp id
     fun ⟨i, f', g, s⟩ => ⟨i, f', fun v hv => hg v _ i (hS.st w _ e1 hp) (g v hv), s⟩
 
-theorem Spec.ite {α : Type} {a : Nat} {F : Prop} {P : World → Prop} {x y : M α} {G : α → World → Prop}
-    {c : Prop} [Decidable c] (hx : c → Spec a F P x G) (hy : ¬ c → Spec a F P y G) :
-    Spec a F P (if c then x else y) G := by
+theorem CSpec.ite {α : Type} {a : Nat} {F : Prop} {P : World → Prop} {x y : M α} {G : α → World → Prop}
+    {c : Prop} [Decidable c] (hx : c → CSpec a F P x G) (hy : ¬ c → CSpec a F P y G) :
+    CSpec a F P (if c then x else y) G := by
   split
   · exact hx ‹_›
   · exact hy ‹_›
 
 /-- extract a world-independent consequence of the precondition. -/
-theorem Spec.of_pre {α : Type} {a : Nat} {F : Prop} {P : World → Prop} {x : M α} {G : α → World → Prop}
-    {C : Prop} (he : Extends x) (hc : ∀ w, Inv w → P w → C) (h : C → Spec a F P x G) : Spec a F P x G :=
+theorem CSpec.of_pre {α : Type} {a : Nat} {F : Prop} {P : World → Prop} {x : M α} {G : α → World → Prop}
+    {C : Prop} (he : Extends x) (hc : ∀ w, Inv w → P w → C) (h : C → CSpec a F P x G) : CSpec a F P x G :=
   ⟨he, fun w ha hi hnf hp => (h (hc w hi hp)).post w ha hi hnf hp⟩
 
-theorem Spec.exists_pre {α : Type} {ι : Sort _} {a : Nat} {F : Prop} {P : ι → World → Prop} {x : M α}
-    {G : α → World → Prop} (he : Extends x) (h : ∀ i, Spec a F (P i) x G) : Spec a F (fun w => ∃ i, P i w) x G :=
+theorem CSpec.exists_pre {α : Type} {ι : Sort _} {a : Nat} {F : Prop} {P : ι → World → Prop} {x : M α}
+    {G : α → World → Prop} (he : Extends x) (h : ∀ i, CSpec a F (P i) x G) : CSpec a F (fun w => ∃ i, P i w) x G :=
   ⟨he, fun w ha hi hnf ⟨i, hp⟩ => (h i).post w ha hi hnf hp⟩
 
 /-- in fault-free mode an impossible branch; in safety mode nothing to show beyond `Ext`. -/
-theorem Spec.of_mode {α : Type} {a : Nat} {F : Prop} {P : World → Prop} {x : M α} {G : α → World → Prop}
-    (he : Extends x) (h : F → Spec a F P x G) (h' : ¬ F → Spec a F P x G) : Spec a F P x G :=
+theorem CSpec.of_mode {α : Type} {a : Nat} {F : Prop} {P : World → Prop} {x : M α} {G : α → World → Prop}
+    (he : Extends x) (h : F → CSpec a F P x G) (h' : ¬ F → CSpec a F P x G) : CSpec a F P x G :=
   ⟨he, fun w ha hi hnf hp => (Classical.em F).elim (fun hF => (h hF).post w ha hi hnf hp)
     (fun hF => (h' hF).post w ha hi hnf hp)⟩
 
